@@ -26,6 +26,12 @@ edit assigns a value (to any cells of the world) is run with the evaluation patt
 after the later edits (so a value computed at a key that once held an assigned value is then exposed to every
 further edit).  When a failing history needs such a scene-setting assignment (the query is answered correctly
 without it), the failure carries the tag history:value-assigned-earlier.
+
+History ingredient "a cached flag was switched earlier": the worlds contain the edit kind "switch the cached flag of
+a cells" (on and off; world cached-flag: callees reading references by name / by attribute path, called from cached
+cells of the same and of other spaces).  Such a switch never changes a correct answer, so it is never a culprit by
+the rule above; when a failing history needs it (without the switch the query is answered correctly), its tags
+(edit:cached-flag-on|off ...) and history:cached-flag-switched-earlier are added to the failure's tags.
 """
 import os, sys, time, itertools, random, multiprocessing
 
@@ -222,6 +228,26 @@ class Runner:
                 return True
         return False
 
+    def scene_needed(self, seq, pattern, qi, positions, final_spec=F):
+        """The positions among `positions` (edits that did not change the query's correct answer) whose deletion
+        makes the failure of query qi disappear: the failure needs them.  Refines tags only."""
+        seq, pat = list(seq), list(pattern)
+
+        def fails(tseq, tpat):
+            tpat = list(tpat) + [final_spec]
+            bad, _, _ = self.live_upto(tseq, tpat)
+            return any(b[1] == qi for b in bad)
+        if not fails(seq, pat):
+            return ()
+        out = []
+        for pos in positions:
+            tseq = seq[:pos] + seq[pos + 1:]
+            if self.reference(tseq) is None or self.reference(tseq)[qi] != self.reference(seq)[qi]:
+                continue
+            if not any(fails(tseq, tpat) for tpat in self._merged(pat, pos)):
+                out.append(pos)
+        return tuple(out)
+
     def live_upto(self, seq, pattern):
         """live() of the history `seq` whose final evaluation round is pattern[len(seq)] instead of all queries."""
         seq = tuple(seq)
@@ -332,6 +358,7 @@ def tier_plan(tier):
 
 
 ASSIGN_TAG = "edit:value-assign"
+FLAG_TAG = "edit:cached-flag"
 
 
 def assigned_patterns(k, level):
@@ -381,12 +408,14 @@ def work(task):
                 refs = [rn.reference(sseq[:t]) for t in range(start, len(sseq) + 1)]
                 changing = [start + t for t in range(len(refs) - 1)
                             if refs[t] is not None and refs[t + 1] is not None and refs[t][qi] != refs[t + 1][qi]]
-                for pos in (changing or range(start, len(sseq))):
+                used[:] = list(changing or range(start, len(sseq)))
+                for pos in used:
                     tags.update(rn.edit_tags(sseq, pos))
                 if any(g < gap for g, _ in eerr):
                     tags.add("edit-raised-in-live-model-only")
                 return tags, len(changing)
 
+            used = []           # positions of the edits whose tags are in the tag set
             tags, nchanging = tagset(sseq, start)
             if nchanging != 1 and gap - start != 1:
                 # several candidate culprits: minimise the history (once per tag set and query)
@@ -406,6 +435,17 @@ def work(task):
                     scene_checked[sk] = rn.needs_assignment(sseq, spat, qi, start, fspec)
                 if scene_checked[sk]:
                     tags.add("history:value-assigned-earlier")
+            # a switch of a cached flag that did not change the query's answer but without which it is answered
+            # correctly: its tags join the tag set
+            flips = [pos for pos in range(len(sseq)) if pos not in used
+                     and any(t.startswith(FLAG_TAG) for t in world.edits[sseq[pos]].tags)]
+            fk = ("flag", tuple(sseq), tuple(spat), qi)
+            if flips and (len(scene_checked) < SCENE_CHECKS_PER_TASK or fk in scene_checked):
+                if fk not in scene_checked:
+                    scene_checked[fk] = rn.scene_needed(sseq, spat, qi, flips, fspec)
+                for pos in scene_checked[fk]:
+                    tags.update(rn.edit_tags(sseq, pos))
+                    tags.add("history:cached-flag-switched-earlier")
             tags = tuple(sorted(tags))
             ent = fails.setdefault(tags, [0, []])
             ent[0] += 1
@@ -459,6 +499,8 @@ def run(res, tier, seed):
              for wi, w in enumerate(worlds) for first in range(len(w.edits))
              if prow[3] is None or ASSIGN_TAG in w.edits[first].tags]
     nproc = max(1, min(12, (os.cpu_count() or 2) - 2))
+    if os.environ.get("VERIF_DRIVER_PROCS"):           # shared machine: cap the worker processes
+        nproc = max(1, int(os.environ["VERIF_DRIVER_PROCS"]))
     exhaustive = True
     builds = 0; cpu = 0.0; maxcpu = 0.0; nshrunk = 0
     ctx = multiprocessing.get_context("fork")
